@@ -337,6 +337,9 @@ func ReplayMain(args []string) {
 		fmt.Println("no violation")
 		os.Exit(0)
 	}
+	if rp.Race && !sched.EdgeFree {
+		replayRace(rp, fs.Arg(0))
+	}
 	sched.OnStuck = func(desc, stack string) {
 		if what, ok := stuckInCodeUnderTest(stack); ok {
 			fmt.Printf("class=blocked-forever:%s\n%s\n%s\n", what, desc, stack)
@@ -377,6 +380,7 @@ type PropSpec struct {
 	ThoroughS      float64
 	Workers        int
 	MemLimitMB     int
+	RaceWorkers    int // > 0: this many processes of the race build (edge-free hand-off) run beside the normal workers
 }
 
 var propSpecs = map[string]*PropSpec{}
@@ -397,6 +401,7 @@ func CheckMain(args []string) {
 	prop := fs.String("prop", "", "property id")
 	tier := fs.String("tier", "quick", "quick|thorough")
 	root := fs.String("root", "/verif", "verif root")
+	racebin := fs.String("racebin", "", "race build of walsim (edge-free hand-off); required by properties with a race stage")
 	fs.Parse(args)
 	spec := propSpecs[*prop]
 	if spec == nil {
@@ -459,6 +464,7 @@ func CheckMain(args []string) {
 		}
 		procs = append(procs, wproc{cmd, out, ef})
 	}
+	raceProcs := startRaceWorkers(spec, *racebin, *prop, *tier, seed, budget, tmp)
 	merged := &WorkerOut{Known: map[string]int{}, KnownSample: map[string]string{}, Fired: Counters{}, Probes: Counters{}, Points: Counters{}}
 	caseSigs := map[uint64]struct{}{}
 	schedSigs := map[uint64]struct{}{}
@@ -547,6 +553,7 @@ func CheckMain(args []string) {
 			}
 		}
 	}
+	raceInfo := collectRaceWorkers(raceProcs, *prop, *tier, replays, merged, &trouble)
 	goldenInfo := map[string]interface{}{}
 	if *prop == "C09" {
 		bad, n := GoldenCheckAll(*root)
@@ -645,6 +652,9 @@ func CheckMain(args []string) {
 		cov[k] = v
 	}
 	for k, v := range goldenInfo {
+		cov[k] = v
+	}
+	for k, v := range raceInfo {
 		cov[k] = v
 	}
 	ev["coverage"] = cov
